@@ -97,7 +97,7 @@ for _m, _closed in (('shepperd', False), ('chiaverini', True), ('hughes', True),
 _mk('sarabandi', 'DCM.to_quaternion', True, kw=dict(threshold=0.5), tiers=('thorough',), max_paths=256)
 for _v in (1, 2, 3):
     _mk('itzhack', 'DCM.to_quaternion', False, kw=dict(version=_v))
-    _mk('itzhack', 'Quaternion(dcm=)', False, kw=dict(version=_v), tiers=('thorough',))
+    _mk('itzhack', 'Quaternion(dcm=)', False, kw=dict(version=_v))
     _mk('itzhack', 'QuaternionArray(DCM=)', False, kw=dict(version=_v), tiers=('thorough',))
 
 
